@@ -19,7 +19,7 @@ use std::time::Instant;
 pub fn def() -> PropDef {
     PropDef {
         id: "C15",
-        rule: "all expected values come from the independent field arithmetic (refmodel). tables (exhaustive): exp[i] = g^i, exp[65535] = 1, log[x] for x >= 1, all 65535 skew entries = log of the normalised subspace polynomial s^_t(w) with the 16 sentinels, all 4M nibble products of Mul16 and of Mul128, LogWalsh[y] = sum_x (-1)^{|x&y|} log x mod 65535 (quick: 512 sampled y, thorough: all y). mul: per engine every log_m x (quick 2048 symbols incl. 0/1/0xFFFF/single-bit; thorough all 65536 symbols = all 2^32 pairs) against symbol*g^log_m. fft: random LCH-basis coefficients, outputs at pos..pos+truncated_size must be the polynomial's values at the points skew_delta+i (sizes <= 1024, chunk-aligned skew offsets up to the table end, sampled slots); ifft: inputs zero beyond truncated_size, the output coefficients evaluated by the reference must reproduce all size inputs. eval_poly: 0/1 vectors, every output (sparse marks) or 96 sampled outputs (dense marks) = sum over marked j != x of log(x^j) mod 65535 with 0 = 65535, bit-identical for two covering truncated sizes. non-trivial: log_m not in {0,65535} and symbol != 0; truncated < size; >= 2 marks",
+        rule: "all expected values come from the independent field arithmetic (refmodel). tables (exhaustive): exp[i] = g^i, exp[65535] = 1, log[x] for x >= 1, all 65535 skew entries = log of the normalised subspace polynomial s^_t(w) with the 16 sentinels, all 4M nibble products of Mul16 and of Mul128, LogWalsh[y] = sum_x (-1)^{|x&y|} log x mod 65535 for all y (own exact Walsh transform; the naive signed sum on 512 sampled y in quick and on all y in thorough). mul: per engine every log_m x (quick 2048 symbols incl. 0/1/0xFFFF/single-bit; thorough all 65536 symbols = all 2^32 pairs) against symbol*g^log_m. fft: random LCH-basis coefficients, outputs at pos..pos+truncated_size must be the polynomial's values at the points skew_delta+i (sizes <= 1024, chunk-aligned skew offsets up to the table end, sampled slots); ifft: inputs zero beyond truncated_size, the output coefficients evaluated by the reference must reproduce all size inputs. eval_poly: 0/1 vectors, every output (sparse marks) or 96 sampled outputs (dense marks) = sum over marked j != x of log(x^j) mod 65535 with 0 = 65535, bit-identical for two covering truncated sizes. non-trivial: log_m not in {0,65535} and symbol != 0; truncated < size; >= 2 marks",
         assumptions: &["log(0) has no definition and is not asserted", "modular quantities are compared modulo 65535 with 0 and 65535 identified"],
         parts,
     }
@@ -29,8 +29,8 @@ fn parts() -> Vec<Box<dyn PartDyn>> {
     vec![
         Box::new(Tables),
         Box::new(MulAll),
-        Box::new(GenPart { name: "transform", quick: 3_000, thorough: 90_000, shrink_iters: 400, strat: xf_strategy, check: check_xf }),
-        Box::new(GenPart { name: "eval_poly", quick: 320, thorough: 9_000, shrink_iters: 60, strat: ep_strategy, check: check_ep }),
+        Box::new(GenPart { name: "transform", quick: 30_000, thorough: 90_000, shrink_iters: 400, strat: xf_strategy, check: check_xf }),
+        Box::new(GenPart { name: "eval_poly", quick: 1_500, thorough: 9_000, shrink_iters: 60, strat: ep_strategy, check: check_ep }),
     ]
 }
 
@@ -66,6 +66,32 @@ fn walsh_expected(y: usize) -> u32 {
     }
     let m = MODULUS as u64;
     ((pos % m + m - neg % m) % m) as u32
+}
+
+/// the whole Walsh table of the log function by an own in-place Walsh-Hadamard transform in exact
+/// integer arithmetic modulo 65535 (independent of the crate's fwht; cross-checked against the naive
+/// signed sum on sampled entries in every run)
+fn walsh_fast() -> &'static Vec<u32> {
+    static W: std::sync::OnceLock<Vec<u32>> = std::sync::OnceLock::new();
+    W.get_or_init(|| {
+        let f = field();
+        let m = MODULUS as i64;
+        let mut a: Vec<i64> = (0..65536usize).map(|x| if x == 0 { 0 } else { f.log[x] as i64 }).collect();
+        let mut len = 1;
+        while len < 65536 {
+            let mut i = 0;
+            while i < 65536 {
+                for j in i..i + len {
+                    let (u, v) = (a[j], a[j + len]);
+                    a[j] = (u + v) % m;
+                    a[j + len] = (u - v).rem_euclid(m);
+                }
+                i += 2 * len;
+            }
+            len *= 2;
+        }
+        a.into_iter().map(|v| v as u32).collect()
+    })
 }
 
 fn table_entry_check(which: &str, i: usize) -> Result<(), String> {
@@ -115,7 +141,17 @@ fn table_entry_check(which: &str, i: usize) -> Result<(), String> {
         }
         "log_walsh" => {
             let got = tables::LOG_WALSH[i] as u32;
+            let want = walsh_fast()[i];
+            if !eq_mod(got, want) {
+                return Err(format!("LOG_WALSH[{i}] = {got}, Walsh transform of the log table gives {want} (mod 65535)"));
+            }
+        }
+        "log_walsh_naive" => {
+            let got = tables::LOG_WALSH[i] as u32;
             let want = walsh_expected(i);
+            if !eq_mod(walsh_fast()[i], want) {
+                return Err(format!("harness: own fast Walsh transform disagrees with the naive signed sum at {i}"));
+            }
             if !eq_mod(got, want) {
                 return Err(format!("LOG_WALSH[{i}] = {got}, signed log sum gives {want} (mod 65535)"));
             }
@@ -152,7 +188,8 @@ impl PartDyn for Tables {
             ("skew", (0..65535).collect()),
             ("mul16", (0..65536 * 64).collect()),
             ("mul128", (0..65536 * 64).collect()),
-            ("log_walsh", walsh_ys),
+            ("log_walsh", (0..65536).collect()),
+            ("log_walsh_naive", walsh_ys),
         ];
         let failure: Mutex<Option<(String, usize, String)>> = Mutex::new(None);
         let evals = AtomicU64::new(0);
@@ -197,8 +234,8 @@ impl PartDyn for Tables {
         stats.samples.push(json!({"table": "skew", "index": 12345, "expected": skew_expected(12345)}));
         stats.samples.push(json!({"table": "mul16", "log_m": 777, "nibble": 2, "x": 9, "expected": field().mul_exp(9 << 8, 777)}));
         let f = failure.lock().unwrap().take();
-        let note = if walsh_all { "all entries of exp, log, skew, Mul16, Mul128, LogWalsh" } else { "all entries of exp, log, skew, Mul16, Mul128; 512 sampled LogWalsh entries" };
-        run.record_part(self.name(), stats, f.is_none() && walsh_all, note, t0);
+        let note = if walsh_all { "all entries of exp, log, skew, Mul16, Mul128, LogWalsh (LogWalsh both by own fast transform and by the naive signed sum)" } else { "all entries of exp, log, skew, Mul16, Mul128, LogWalsh (LogWalsh by own fast Walsh transform, 512 entries also by the naive signed sum)" };
+        run.record_part(self.name(), stats, f.is_none(), note, t0);
         if let Some((which, i, m)) = f {
             run.record_failure(self.name(), json!({"table": which, "index": i}), m);
         }
